@@ -401,11 +401,11 @@ theorem parse_total_witness_div : ¬ parse_total_full := by
   exact this (by decide)
 
 /-- file: ftyp(8) moov(8) moof(16: moof+mfhd hdr) … with a tfhd whose size field is 4: the code requests
-`uint32(4-8) = 4294967292` bytes for a 60-byte file. -/
+`uint32(4-8) = 4294967292` bytes for a 64-byte file. -/
 def witnessFileAlloc : Bytes :=
   [0, 0, 0, 8] ++ tFtyp ++ [0, 0, 0, 8] ++ tMoov ++
-  [0, 0, 0, 36] ++ tMoof ++ [0, 0, 0, 16] ++ tMfhd ++ [0, 0, 0, 0, 0, 0, 0, 0] ++
-  [0, 0, 0, 12] ++ tTraf ++ [0, 0, 0, 4] ++ tTfhd ++
+  [0, 0, 0, 40] ++ tMoof ++ [0, 0, 0, 16] ++ tMfhd ++ [0, 0, 0, 0, 0, 0, 0, 0] ++
+  [0, 0, 0, 16] ++ tTraf ++ [0, 0, 0, 4] ++ tTfhd ++
   [0, 0, 0, 8] ++ tMdat
 
 def witnessLibAlloc : Lib :=
@@ -413,13 +413,13 @@ def witnessLibAlloc : Lib :=
     init := fun _ => .ok [⟨1, 90000⟩] }
 
 theorem witnessAlloc_value :
-    (parseSegment cur witnessLibAlloc witnessFileAlloc) = (.err .eof, [⟨16, 60⟩, ⟨4294967292, 0⟩]) := by decide
+    (parseSegment cur witnessLibAlloc witnessFileAlloc) = (.err .eof, [⟨16, 64⟩, ⟨4294967292, 8⟩]) := by decide
 
 theorem parse_total_witness_alloc : ¬ parse_total_full := by
   intro h
   have := (h witnessLibAlloc (by intro b tr hb; simp [witnessLibAlloc] at hb; subst hb; simp) witnessFileAlloc).2.2
   rw [witnessAlloc_value] at this
-  have := (this ⟨4294967292, 0⟩ (by simp)).1
+  have := (this ⟨4294967292, 8⟩ (by simp)).1
   simp at this
 
 /-- **C28 for the code as it is, outside the two defect classes**: if the mvhd time scale is not zero
@@ -494,7 +494,7 @@ def Ordered : Bool → Bool → List MEv → Bool
   | _, _, [] => true
   | h, d, .other :: r => Ordered h d r
   | _, d, .tfhd ok :: r => if ok then Ordered true d r else true
-  | h, d, .tfdt ok tf :: r => if !ok then true else if !h then false else if !tf then true else Ordered h true r
+  | h, _, .tfdt ok tf :: r => if !ok then true else if !h then false else if !tf then true else Ordered h true r
   | h, d, .trun ok :: r => if !ok then true else if !d then false else Ordered h d r
 
 theorem muxWalk_cur_partial : ∀ (evs : List MEv) (h d : Bool), Ordered h d evs = true →
